@@ -4,7 +4,8 @@ from __future__ import annotations
 import ast
 
 from ..core import (AnalysisError, FuncInfo, Project, attr_chain, body_exits, const_str, enclosing, expand, guards_of,
-                    local_defs, term, unparse)
+                    local_defs, term, unparse, atoms_at, implied_atoms)
+from ..inline import baseline_names
 from . import c08
 
 SC = "codelimit.common.Scanner"
@@ -37,6 +38,10 @@ def rule_R1(ctx, prj):
     for n in fi.walk():
         if isinstance(n, ast.Assign) and len(n.targets) == 1 and isinstance(n.targets[0], ast.Name):
             v = n.value
+            if isinstance(v, ast.IfExp):        # X.get(k) if cached_report else None
+                nn = [b for b in (v.body, v.orelse) if not (isinstance(b, ast.Constant) and b.value is None)]
+                if len(nn) == 1:
+                    v = nn[0]
             txt = term(fi, v)
             if isinstance(v, ast.Subscript) and term(fi, v.value).endswith(".codebase.files") and cache_p in txt:
                 cached_names.setdefault(n.targets[0].id, []).append(("key", v.slice, n))
@@ -92,16 +97,16 @@ def rule_R1(ctx, prj):
     if not reuse:
         raise AnalysisError("_scan_file: no reuse of a cached entry found (cache path rewritten?)")
     for c, used in reuse:
-        atoms = []
-        for g in guards_of(fi, c):
-            atoms += _flat_conj(g.test, g.polarity)
+        atoms = atoms_at(fi, c)
         ok = False
+        all_cached = set(cached_names)
         for t, pol in atoms:
-            if isinstance(t, ast.Compare) and len(t.ops) == 1 and isinstance(t.ops[0], ast.Eq) and pol:
+            if isinstance(t, ast.Compare) and len(t.ops) == 1 and isinstance(t.ops[0], (ast.Eq, ast.NotEq)) and (isinstance(t.ops[0], ast.Eq) == pol):
                 l, r = term(fi, t.left), term(fi, t.comparators[0])
                 sides = {l, r}
-                cs = {f"{u}.checksum()" for u in used}
-                if sides & cs and f"calculate_checksum({path_p})" in sides:
+                raw = {unparse(t.left), unparse(t.comparators[0])}
+                cs = {f"{u}.checksum()" for u in all_cached}
+                if (sides | raw) & cs and f"calculate_checksum({path_p})" in sides:
                     ok = True
         if ok:
             ctx.ok("R1", fi.site(c), f"_scan_file: reuse of {sorted(used)} guarded by checksum() == calculate_checksum({path_p})")
@@ -126,10 +131,17 @@ def rule_R2(ctx, prj):
             and not (isinstance(r.value, ast.Constant) and r.value.value is None)]
     if not rets:
         raise AnalysisError("_read_cached_report returns no report")
+    sites = []
     for r in rets:
-        atoms = []
-        for g in guards_of(fi, r):
-            atoms += _flat_conj(g.test, g.polarity)
+        v = r.value
+        if isinstance(v, ast.IfExp):
+            for br in (v.body, v.orelse):
+                if not (isinstance(br, ast.Constant) and br.value is None):
+                    sites.append((r, br))
+        else:
+            sites.append((r, r))
+    for r, node in sites:
+        atoms = atoms_at(fi, node)
         via_attr = via_doc = False
         for t, pol in atoms:
             if isinstance(t, ast.Compare) and len(t.ops) == 1:
@@ -217,7 +229,17 @@ def rule_R3(ctx, prj):
             ctx.ok("R3", f.site(viaread[0]), f"{f.local}: {len(viaread)} report(s) obtained through read_report")
         else:
             raise AnalysisError(f"{f.disp}: no report is read")
-    callers = prj.callgraph.callers_of("codelimit.common.report.ReportReader:ReportReader.from_json")
+    base = baseline_names()
+    callers, todo, seen = set(), list(prj.callgraph.callers_of("codelimit.common.report.ReportReader:ReportReader.from_json")), set()
+    while todo:
+        cq = todo.pop()
+        if cq in seen:
+            continue
+        seen.add(cq)
+        if cq not in base and cq not in WHO_FROM_JSON and prj.callgraph.callers_of(cq):
+            todo.extend(prj.callgraph.callers_of(cq))     # a newly extracted helper: judge its callers instead
+        else:
+            callers.add(cq)
     for cq in sorted(callers):
         if cq in WHO_FROM_JSON:
             ctx.ok("R3", prj.funcs[cq].site(), f"from_json caller {cq.split(':')[1]}: {WHO_FROM_JSON[cq]}")
